@@ -23,6 +23,10 @@ func encodeString(str string, size byte) ([]byte, error) {
 	length := len(str)
 	if length > int(size)-1 {
 		length = int(size) - 1
+		// Do not cut a multi-byte UTF-8 sequence in half.
+		for length > 0 && !utf8.RuneStart(str[length]) {
+			length--
+		}
 	}
 
 	bstr := make([]byte, size)
